@@ -160,6 +160,48 @@ def gen_merged(rng, k=None, ncs=None, **o):
                      'curated': [s['opts']['curated'] for s in sems]}}
 
 
+def gen_big(rng, n, **o):
+    """A single uncurated directory of n spikes (n above get_depths' batch size of 50 000) that repeats a period of k
+    spikes: spike j has the template, the amplitude and the feature row of spike j mod k.  The amplitudes are constant
+    per template, so that the per-template means (templates.amps / clusters.amps and the amplitude rescaling of the
+    waveforms) do not depend on n: every exported value except the per-spike files is that of the one-period dataset,
+    and the per-spike files repeat it.  The abstract input keeps the period only ('big_n' = n); build_model tiles."""
+    nt = o.pop('nt', 2)
+    k = nt * o.pop('reps', rng.randint(2, 4))          # period <= 8
+    st = [j % nt for j in range(k)]
+    table, nc, vanish = o.pop('table', 'none'), o.pop('nc', rng.randint(3, 4)), o.pop('vanish', 0.25)
+    while True:
+        inp = gen_single(rng, table=table, nc=nc, nt=nt, nsw=2, nspk=k, st=st, sc=None,
+                         curated=False, empty='none', features='full', vanish=vanish, **o)
+        sem = inp['probes'][0]
+        # finite depth (a positive first-PC feature) where the batch loop could go wrong: the spikes just before, at and
+        # just after every batch boundary below n, the first and the last spike; a NaN depth may sit anywhere else
+        fin = [any(loc[0] > 0 for loc in row) for row in sem['features']['data']]
+        crit = {(b + d) % k for b in range(50000, int(n) + 1, 50000) for d in (-1, 0, 1)} | {0, (int(n) - 1) % k}
+        if all(fin[j] for j in crit):
+            break
+    per_t = [float(rng.randint(1, 9)) for _ in range(nt)]
+    sem['amplitudes'] = [per_t[t] for t in st]
+    inp['big_n'] = int(n)
+    inp['opts'] = dict(inp['opts'], curated=False, features='full', empty='none')
+    return inp
+
+
+def tile(sem, n):
+    """the periodic dataset of n spikes (as datasets_c09's big cases)"""
+    k = sem['n_spikes']
+    s = copy.deepcopy(sem)
+    s['n_spikes'] = n
+    s['spike_samples'] = list(range(n))
+    for key in ('spike_templates', 'amplitudes'):
+        s[key] = [sem[key][j % k] for j in range(n)]
+    s['spike_clusters'] = None
+    f = s['features']
+    f['data'] = [sem['features']['data'][j % k] for j in range(n)]
+    f['rows'] = None
+    return s
+
+
 # ---- materialisation / running ---------------------------------------------------------------------------------
 
 def build_model(inp, base):
@@ -169,6 +211,8 @@ def build_model(inp, base):
     from phylib.io.model import TemplateModel, load_model
     dirs, kws = [], []
     for k, sem in enumerate(inp['probes']):
+        if inp.get('big_n'):
+            sem = tile(sem, inp['big_n'])
         ds = D.render(sem, None, write_clusters=inp['merged'], **inp['render'])
         d = os.path.join(base, 'p%d' % k)
         kws.append(D.materialise(ds, d))
@@ -195,23 +239,39 @@ def toks(a):
     return [toks(x) for x in a]
 
 
-def snapshot(m):
-    """the arrays of the loaded model the exporter reads (taken before convert())"""
+def snapshot(m, period=None):
+    """the arrays of the loaded model the exporter reads (taken before convert()).  With period = k (periodic datasets
+    of more than 50 000 spikes) the per-spike arrays are cut to their first k entries, 'nspikes' is k, 'n' is the real
+    number of spikes and 'periodic' says whether the loaded per-spike arrays really are that period repeated, with
+    amplitudes constant per template (else the per-period oracle would not apply)."""
     import numpy as np
     sf = m.sparse_features
-    return {
+    n = int(m.n_spikes)
+    k = n if period is None else int(period)
+    res = {
         'tdata': toks(np.array(m.sparse_templates.data)), 'cdata': toks(np.array(m.sparse_clusters.data)),
         'tcols': m.sparse_templates.cols is not None or m.sparse_clusters.cols is not None,
-        'wmi': toks(np.array(m.wmi)), 'st': [int(x) for x in m.spike_templates], 'sc': [int(x) for x in m.spike_clusters],
-        'amps': None if m.amplitudes is None else toks(np.array(m.amplitudes)),
+        'wmi': toks(np.array(m.wmi)), 'st': [int(x) for x in m.spike_templates[:k]], 'sc': [int(x) for x in m.spike_clusters[:k]],
+        'amps': None if m.amplitudes is None else toks(np.array(m.amplitudes[:k])),
         'nt': int(m.n_templates), 'ncl': int(m.n_clusters),
         'rate': D.tok(float(m.sample_rate)), 'probes': [int(x) for x in m.channel_probes],
         'pos': toks(np.array(m.channel_positions)), 'cmap': [int(x) for x in m.channel_mapping],
-        'nspikes': int(m.n_spikes), 'nclosest': int(m.n_closest_channels),
+        'nspikes': k, 'nclosest': int(m.n_closest_channels),
         'nan_idx': [int(x) for x in np.asarray(m.nan_idx).ravel()],
-        'feat': None if sf is None else {'data': toks(np.array(sf.data)),
+        'feat': None if sf is None else {'data': toks(np.array(sf.data[:k])),
                                          'cols': None if sf.cols is None else [[int(x) for x in r] for r in np.array(sf.cols)]},
     }
+    if period is not None:
+        st, sc, am = np.asarray(m.spike_templates), np.asarray(m.spike_clusters), np.asarray(m.amplitudes).ravel()
+        res['n'] = n
+        res['periodic'] = bool(
+            1 <= k <= n and sf is not None and sf.data.shape[0] == n and
+            all(np.array_equal(sf.data[j:j + k], sf.data[:min(k, n - j)]) for j in range(0, n, k)) and
+            np.array_equal(st, np.resize(st[:k], n)) and np.array_equal(sc, np.resize(sc[:k], n)) and
+            np.array_equal(am, np.resize(am[:k], n)) and
+            all(len(set(am[:k][st[:k] == t].tolist())) <= 1 for t in range(int(m.n_templates))) and
+            np.array_equal(sc, st) and set(st[:k].tolist()) == set(range(int(m.n_templates))))
+    return res
 
 
 def read_values(out, label):
